@@ -81,9 +81,33 @@ def handleHist (req : Json) : Except String Json := do
              ("alone", ofList (ofList outToJson) alone),
              ("states", ofList ofNat seeds)])
 
+def parseFlt (j : Json) : Except String Flt := do
+  let s ← parseSeed (← field j "seed")
+  match (← str (← field j "kind")) with
+  | "shuffle" => pure (.shuffle s)
+  | "reservoir" =>
+    let strict := match fieldD j "strict" (Json.bool false) with | Json.bool b => b | _ => false
+    pure (.reservoir (← opt nat (fieldD j "count" Json.null)) strict s)
+  | k => throw s!"unknown filter {k}"
+
+def fltOutToJson : FltOut → Json
+  | .items l => obj [("items", ofList ofNat l)]
+  | .walk p s => obj [("perm", ofList ofNat p), ("state", ofNat s)]
+
+/-- {"filters":{"objs":[{"kind":"shuffle"|"reservoir","seed":…,"count":c|null,"strict":b}…],"calls":[[o,n]…]}} → `fltRun` -/
+def handleFilters (r : Json) : Except String Json := do
+  let objs ← (← arr (← field r "objs")).mapM parseFlt
+  let calls ← (← arr (← field r "calls")).mapM (fun j => do
+    let p ← arr j
+    pure ((← nat (p.getD 0 Json.null)), (← nat (p.getD 1 Json.null))))
+  pure (obj [("outs", ofList fltOutToJson (fltRun objs calls))])
+
 def handle (req : Json) : Except String Json :=
   match req.getObjVal? "reservoir" with
   | .ok r => handleReservoir r
-  | .error _ => handleHist req
+  | .error _ =>
+    match req.getObjVal? "filters" with
+    | .ok r => handleFilters r
+    | .error _ => handleHist req
 
 end Coba.C05.Driver
